@@ -1,4 +1,7 @@
 From Coq Require Import Extraction ExtrOcamlBasic.
-From RV Require Import Base.Bytes Types.KeyTypes.
+From RV Require Import Base.Bytes.
+From RV.Types Require Import Utf8 KeyTypes.
 Extraction Language OCaml.
-Extraction "../ocaml/gen/c15_model.ml" encode decode kcompare vcompare separator le_encode le_decode.
+Extraction "../ocaml/gen/c15_model.ml"
+  wf_ty wt encode decode kcompare vcompare separator branch_separator min_encoded_key fixed_width
+  le_encode le_decode utf8_encode utf8_decode.
